@@ -786,6 +786,14 @@ def _oncelock_get_or_init(ctx, p, f):
     name = p.root[1]
     # value of the initialised cell lives under the static's own root
     if ('S', name) not in ctx.st.store:
+        if name not in ctx.ex.static_values:
+            # a cell nobody preloaded (e.g. a derived table added by a change): run its initialiser symbolically, once, in a
+            # scratch state - an initialiser depends on nothing but other statics - and keep the value as the static's content
+            scratch = X.State()
+            r = ctx.ex.call_closure(f, [], scratch, ctx.where)
+            if r is None:
+                raise Unsupported('initialiser of static %s diverges' % name)
+            ctx.ex.static_values[name] = r[0]
         ctx.ex.static_value(name, ctx.st)
     return Ptr(('S', name))
 
@@ -1040,6 +1048,8 @@ def _entries_of_slice(ctx, p, by_ref):
         ents = tuple((True, x) for x in v)
     elif isinstance(v, Seq):
         ents = v.ents
+    elif isinstance(v, UFArr):
+        ents = tuple((True, x) for x in v.elements())
     else:
         raise Unsupported('iter over %r' % (v,))
     a, b = 0, len(ents)
